@@ -755,6 +755,16 @@ def readChunk (fx : Fixes) (L : Libs) (verify : Bool) (mode : Mode) (b : Bytes) 
     .ok (ColumnReader.readBatch ColumnReader.Fixes.all
           (ColumnReader.getColumn (chunkOf fx L verify mode b c)) c.cm.numValues wantDefs false).2
 
+/-- the same call with a rep_levels array as well (`wantReps`): what harness/ops_file.c does for a
+REPEATED column -/
+def readChunkR (fx : Fixes) (L : Libs) (verify : Bool) (mode : Mode) (b : Bytes) (o : Opened) (rg col : Int)
+    (wantDefs wantReps : Bool) : Except Err (ColumnReader.ReadResult Bytes) :=
+  match getColumn o rg col with
+  | .error e => .error e
+  | .ok c =>
+    .ok (ColumnReader.readBatch ColumnReader.Fixes.all
+          (ColumnReader.getColumn (chunkOf fx L verify mode b c)) c.cm.numValues wantDefs wantReps).2
+
 /-- a column chunk of a table: per row its definition level, and the non-null values -/
 structure ColumnData where
   defs : List Nat
